@@ -8,6 +8,46 @@ use std::sync::Mutex;
 /// Serialises /proc scans with descriptor audits (both open transient descriptors).
 pub static PROC_LOCK: Mutex<()> = Mutex::new(());
 
+thread_local! {
+    static HOLDS_PROC_LOCK: std::cell::Cell<bool> = const { std::cell::Cell::new(false) };
+}
+
+/// PROC_LOCK, re-entrant for the thread that already holds it (a case that keeps descriptor numbers free while it
+/// runs holds the lock throughout and still takes descriptor snapshots).
+pub struct ProcGuard(Option<std::sync::MutexGuard<'static, ()>>);
+
+impl Drop for ProcGuard {
+    fn drop(&mut self) {
+        if self.0.is_some() {
+            HOLDS_PROC_LOCK.with(|h| h.set(false));
+        }
+    }
+}
+
+pub fn proc_guard() -> ProcGuard {
+    if HOLDS_PROC_LOCK.with(|h| h.get()) {
+        return ProcGuard(None);
+    }
+    let g = PROC_LOCK.lock().unwrap_or_else(|e| e.into_inner());
+    HOLDS_PROC_LOCK.with(|h| h.set(true));
+    ProcGuard(Some(g))
+}
+
+/// For the watchdog thread: never waits (a case may hold the lock for as long as it runs).
+pub fn try_proc_guard() -> Option<ProcGuard> {
+    match PROC_LOCK.try_lock() {
+        Ok(g) => {
+            HOLDS_PROC_LOCK.with(|h| h.set(true));
+            Some(ProcGuard(Some(g)))
+        }
+        Err(std::sync::TryLockError::Poisoned(e)) => {
+            HOLDS_PROC_LOCK.with(|h| h.set(true));
+            Some(ProcGuard(Some(e.into_inner())))
+        }
+        Err(_) => None,
+    }
+}
+
 #[derive(Clone, Debug)]
 pub struct FdEnt {
     pub fd: i32,
@@ -81,7 +121,7 @@ pub fn fd_table(pid: i32) -> Vec<FdEnt> {
 }
 
 pub fn self_fd_table() -> Vec<FdEnt> {
-    let _g = PROC_LOCK.lock().unwrap_or_else(|e| e.into_inner());
+    let _g = proc_guard();
     let me = self_pid();
     fd_table(me)
 }
@@ -179,6 +219,12 @@ pub enum Block {
     WaitAny,
     Poll(Vec<(u64, bool)>), // (pipe inode, waiting-for-readable?)
     Zombie,
+    /// a scripted child that has declared (comm = "vforever") that it loops for ever, ignoring errors, and that
+    /// nothing it does can be observed any more: it never exits, closes or delivers anything unless signalled
+    Forever,
+    /// a reporting child that holds (comm = "vheld") until the monitor ends it, which happens only after the call
+    /// under observation has returned: it waits for the subject
+    Held,
     Not(String),
 }
 
@@ -200,6 +246,14 @@ fn classify(pid: i32, tid: i32, own: bool) -> Node {
         None => return mk("gone".into(), Block::Not("gone".into())),
         Some('Z') => return mk("zombie".into(), Block::Zombie),
         _ => {}
+    }
+    let comm = if own { String::new() } else { std::fs::read_to_string(format!("/proc/{}/comm", pid)).map(|c| c.trim().to_string()).unwrap_or_default() };
+    if comm == "vheld" {
+        return mk("runs the requested program, which stays until the monitored call has returned".into(), Block::Held);
+    }
+    if comm == "vforever" {
+        let blk = std::fs::read_to_string(format!("/proc/{}/status", pid)).ok().and_then(|s| s.lines().find(|l| l.starts_with("SigBlk:")).map(|l| l.to_string())).unwrap_or_default();
+        return mk(format!("loops for ever ignoring EPIPE, ends only by a signal ({})", blk.replace('\t', " ")), Block::Forever);
     }
     let (nr, a) = match thread_syscall(pid, tid) {
         Some(x) => x,
@@ -321,6 +375,8 @@ impl Certificate {
                 Block::WaitPid(_) => "wait",
                 Block::WaitAny => "waitany",
                 Block::Poll(_) => "poll",
+                Block::Forever => "never-ending-child",
+                Block::Held => "program-that-runs-until-the-call-returns",
                 _ => "?",
             })
             .collect::<Vec<_>>()
@@ -331,7 +387,9 @@ impl Certificate {
 /// Build the wait-for graph for the given subject threads of this process and all its descendants;
 /// returns a certificate if a subject thread is in the greatest set of mutually blocked nodes.
 pub fn analyse(subject_tids: &[i32]) -> Option<Certificate> {
-    let _g = PROC_LOCK.lock().unwrap_or_else(|e| e.into_inner());
+    // (only the watchdog thread analyses; while a case holds the lock - it keeps low descriptor numbers free and nobody
+    // else may open anything - there is no analysis, and the wall-clock watchdog alone ends a hang, as inconclusive)
+    let _g = try_proc_guard()?;
     let me = self_pid();
     let desc = descendants(me);
     let mut nodes: Vec<Node> = vec![];
@@ -442,6 +500,9 @@ pub fn analyse(subject_tids: &[i32]) -> Option<Certificate> {
                     let ch = kids.get(&nodes[i].pid).cloned().unwrap_or_default();
                     ch.is_empty() || ch.iter().any(|&c| matches!(proc_state(c), None | Some('Z')) || proc_alive_outside(c, &dead))
                 }
+                Block::Forever => false,
+                // ended by the monitor once the call has returned: only a subject thread that can still make progress wakes it
+                Block::Held => nodes.iter().enumerate().any(|(j, m)| m.pid == me && !dead[j]),
                 _ => true,
             };
             if wake {
